@@ -287,10 +287,24 @@ func c18visit(p *core.Prog, v *ssa.Function) (bool, string) {
 	edgeOK := false
 	for _, m := range core.EdgeCmps(tcall.Block()) {
 		if m.X == idx && m.Op == token.GEQ {
-			if call, ok := m.Y.(*ssa.Call); ok {
-				if g := core.Callee(&call.Call); g != nil && g.Name() == "Len" && core.FieldKey(call.Call.Args[0]) == "SimpleHTTPDef.interceptors" {
-					edgeOK = true
+			// Len() of the interceptor list, len(list), or an accessor of the receiver that returns one of those
+			var isCount func(v ssa.Value, depth int) bool
+			isCount = func(v ssa.Value, depth int) bool {
+				call, ok := core.Resolve(v).(*ssa.Call)
+				if !ok || len(call.Call.Args) == 0 || depth > 2 {
+					return false
 				}
+				g := core.Callee(&call.Call)
+				if (g != nil && g.Name() == "Len" || core.IsBuiltin(&call.Call, "len")) && core.FieldKey(call.Call.Args[0]) == "SimpleHTTPDef.interceptors" {
+					return true
+				}
+				if r := core.ThinReturn(g); r != nil {
+					return isCount(r, depth+1)
+				}
+				return false
+			}
+			if isCount(m.Y, 0) {
+				edgeOK = true
 			}
 		}
 	}
